@@ -524,7 +524,10 @@ func (a *cowAnalysis) class(u *cowUnit, e ast.Expr, s flow.State) cowClass {
 				// enclosing function outlives the call and is not fresh)
 				if v, ok := a.info.ObjectOf(y).(*types.Var); ok && v.Parent() != a.pk.Types.Scope() && u.body.Pos() <= v.Pos() && v.Pos() < u.body.End() {
 					if _, isPtr := v.Type().Underlying().(*types.Pointer); !isPtr {
-						return cowClass{u: true, z: true}
+						// a header copied from another container (x := *c) still
+						// points at that container's payload: it is not
+						// shareable until the payload pointer is replaced
+						return cowClass{u: true, z: !a.headerCopy(u, v)}
 					}
 				}
 			}
@@ -903,6 +906,15 @@ func (a *cowAnalysis) run(u *cowUnit) {
 			for _, l := range x.Lhs {
 				if tgt, header := a.writeTarget(u, l); tgt != nil {
 					a.need(u, tgt, header, s, x.Pos(), "store to "+types.ExprString(l))
+					// replacing the payload pointer of an unfrozen header makes
+					// the container this bitmap's own again
+					if sel, ok := ast.Unparen(l).(*ast.SelectorExpr); ok && header && sel.Sel.Name == "pointer" {
+						if id, ok := ast.Unparen(tgt).(*ast.Ident); ok {
+							if idx, ok := u.vars[info.ObjectOf(id)]; ok && idx < 16 && s&cowBit(idx, cowU) != 0 {
+								s |= cowBit(idx, cowZ)
+							}
+						}
+					}
 				}
 			}
 			type upd struct {
@@ -1122,6 +1134,41 @@ func (a *cowAnalysis) inputCast(e ast.Expr) bool {
 			if tv, ok := a.info.Types[c.Fun]; ok && tv.IsType() {
 				if b, ok := tv.Type.Underlying().(*types.Basic); ok && b.Kind() == types.UnsafePointer {
 					found = true
+				}
+			}
+		}
+		return true
+	})
+	return found
+}
+
+// headerCopy: the local Container value v is (somewhere in the unit) assigned a
+// copy of another container's header (`v := *c`, `v = *c`, `v := w`).
+func (a *cowAnalysis) headerCopy(u *cowUnit, v *types.Var) bool {
+	found := false
+	check := func(lhs ast.Expr, rhs ast.Expr) {
+		id, ok := ast.Unparen(lhs).(*ast.Ident)
+		if !ok || a.info.ObjectOf(id) != v {
+			return
+		}
+		switch ast.Unparen(rhs).(type) {
+		case *ast.CompositeLit:
+		default:
+			found = true
+		}
+	}
+	ast.Inspect(u.body, func(n ast.Node) bool {
+		switch x := n.(type) {
+		case *ast.AssignStmt:
+			if len(x.Lhs) == len(x.Rhs) {
+				for i := range x.Lhs {
+					check(x.Lhs[i], x.Rhs[i])
+				}
+			}
+		case *ast.ValueSpec:
+			for i, nm := range x.Names {
+				if i < len(x.Values) {
+					check(nm, x.Values[i])
 				}
 			}
 		}
